@@ -130,6 +130,22 @@ func ZZ_C13_Sweep() {
 	v.time = P
 	n := m.Create(1, 1, int64(e), math.MaxInt64, 1)
 	v.Add(n)
+	visited := true
+	if vParam("extended") == 1 {
+		// reads only ever extend deadlines, and the re-scheduling event of a read may be dropped by the lossy read
+		// buffer: the timer still sits in the bucket of its old deadline e while the entry's deadline is now e2 >= e.
+		// The sweep that reaches the old bucket must fire it iff e2 has passed, and otherwise re-file it under e2.
+		e2 := vU64("e2")
+		vAssume(e2 >= e && e2 < 1<<62)
+		n.SetExpiresAt(int64(e2))
+		mask := buckets[L] - 1
+		steps := delta + 1
+		if steps > buckets[L] {
+			steps = buckets[L]
+		}
+		visited = delta != 0 && (((e>>shift[L])&mask)-s0)&mask < steps
+		e = e2
+	}
 	fired := 0
 	var firedPtr node.Node[int, int]
 	var firedNow int64
@@ -150,10 +166,12 @@ func ZZ_C13_Sweep() {
 	} else {
 		// progress: a deadline more than one tick before C must have fired
 		vAssert(!(e+spans[0] < C), "c13.sweep.progress_within_one_tick")
-		L2 := zzFindLevel(v, n, e)
-		vAssert(L2 >= 0, "c13.sweep.unfired_node_still_linked")
-		if L2 >= 0 {
-			vAssert(zzInv(C, e, L2) || e < C, "c13.sweep.invariant_reestablished")
+		if visited {
+			L2 := zzFindLevel(v, n, e)
+			vAssert(L2 >= 0, "c13.sweep.unfired_node_still_linked")
+			if L2 >= 0 {
+				vAssert(zzInv(C, e, L2) || e < C, "c13.sweep.invariant_reestablished")
+			}
 		}
 	}
 	if vParam("canary") == 1 {
